@@ -9,6 +9,7 @@ import pickle
 import shutil
 import sys
 import tarfile
+import tempfile
 import warnings
 import zipfile
 
@@ -183,11 +184,48 @@ def poly(d, files, a, b, fault_at):
             "leftovers": left, "expected": expected, "out_formats": out_formats}
 
 
+def recur(d, n, member):
+    """the recursive property discovery (it looks inside tar and zip archives) on an archive whose member name is legal for
+    the container but that the usual writers never produce: inspection stays read-only and leaves nothing anywhere"""
+    area = os.path.join(d, "recur_area")
+    shutil.rmtree(area, ignore_errors=True)
+    inner = os.path.join(area, "a", "b")
+    os.makedirs(inner)
+    p = os.path.join(inner, f"arch{n}.tar")
+    with tarfile.open(p, "w") as t:
+        for name in ("pickle", member):
+            body = pickle.dumps({"n": n}, 2)
+            ti = tarfile.TarInfo(name)
+            ti.size = len(body)
+            t.addfile(ti, io.BytesIO(body))
+    # temporary directories are created three levels inside the watched area, so that a member written outside its
+    # temporary directory still lands where the listing sees it
+    tdir = os.path.join(area, "t", "u", "v")
+    os.makedirs(tdir)
+    h0, l0 = sha(p), listing(area)
+    exc, old = "", tempfile.tempdir
+    tempfile.tempdir = tdir
+    try:
+        r1 = quiet(pg.find_file_properties_recursively, p)
+        r2 = quiet(pg.find_file_properties_recursively, p)
+        det = json.dumps(r1, sort_keys=True, default=str) == json.dumps(r2, sort_keys=True, default=str)
+    except Exception as e:  # noqa: BLE001 - a refusal is an answer; what matters is what is left behind
+        det, exc = True, type(e).__name__
+    finally:
+        tempfile.tempdir = old
+    rec = {"kind": "recur", "member": member, "deterministic": bool(det), "same_bytes": sha(p) == h0,
+           "same_listing": listing(area) == l0, "new_files": sorted(set(listing(area)) - set(l0))[:3], "exc": exc}
+    shutil.rmtree(area, ignore_errors=True)
+    return rec
+
+
 def main():
     spec = json.load(open(sys.argv[1]))
     d = spec["scratch"]
     os.makedirs(d, exist_ok=True)
     out = [cell(c, d, i) for i, c in enumerate(spec["cells"])]
+    for n, member in enumerate(("plain.bin", "dir/inner.bin", "../escaped.bin", "../../escaped2.bin", "./dot.bin")):
+        out.append(recur(d, n, member))
     if spec.get("poly"):
         files = real_files(d)
         # real files also go through identification (TorchAccepts => PyTorch v1.3)
